@@ -162,6 +162,18 @@ def cases(rng, tier):
             ops = [o for o in ops if o["t"] not in ("iadd_num", "iadd_table")] or [{"t": "items"}]
         out.append({"keys": keys, "kdtype": dt, "qdtype": qdt, "mod": mod, "vals": vals,
                     "vdtype": vdt, "ops": ops, "qbuf": qbuf})
+    # CROWDED buckets on narrow key dtypes: more keys in one bucket than the key dtype can count (130..250 keys of an 8-bit dtype
+    # under modulus 1 / 2; 300 16-bit keys under modulus 1), all keys of the dtype, and the default modulus for comparison
+    for i in range(12 if tier == "quick" else 150):
+        dt = rng.choice(["int8", "uint8", "int8", "int16"]) if i >= 3 else ["int8", "uint8", "int8"][i]
+        info = np.iinfo(dt)
+        n = rng.choice([130, 200, 256]) if info.bits == 8 else rng.choice([300, 700])
+        keys = rng.sample(range(int(info.min), int(info.max) + 1), n)
+        mod = rng.choice([1, 1, 2, 3, None]) if i >= 3 else [1, 1, None][i]
+        ks = [rng.choice(keys) for _ in range(5)]
+        ops = [{"t": "getvec", "ks": ks}, {"t": "get1", "k": rng.choice(keys)}, {"t": "setscalar", "ks": ks[:2], "x": 77}, {"t": "getvec", "ks": ks + ks[::-1]},
+               {"t": "contains", "ks": ks[:3]}, {"t": "items"}]
+        out.append({"keys": keys, "kdtype": dt, "qdtype": dt, "mod": mod, "vals": [rng.randint(0, 99) for _ in keys], "vdtype": "int64", "ops": ops, "qbuf": False})
     return out
 
 
